@@ -16,6 +16,7 @@ import importlib
 import json
 import multiprocessing as mp
 import os
+import signal
 import sys
 import time
 import traceback
@@ -65,6 +66,15 @@ class _CaseFailed(Exception):
     pass
 
 
+class CaseTimeout(Exception):
+    """Raised inside a worker by SIGALRM when one case runs for too long; property modules that catch Exception
+    around the code under test report it under their own signature (type name CaseTimeout)."""
+
+
+def _on_alarm(_signum, _frame):
+    raise CaseTimeout("case timeout")
+
+
 class _Abort(BaseException):
     """Not an Exception on purpose: Hypothesis lets it propagate, which ends a campaign or a shrink at once."""
 
@@ -110,6 +120,8 @@ def _worker(prop_name: str, tier: str, wseed: int, n_examples: int, excluded: Li
         from . import kc as _kc
 
         _kc._TMP_ROOT = None  # never share (or delete) the parent's scratch directory
+        signal.signal(signal.SIGALRM, _on_alarm)
+        case_timeout_s = 30.0
         prop = importlib.import_module(f"vk.props.{prop_name.lower()}")
         strat = prop.strategy(tier)
         t0 = time.time()
@@ -123,6 +135,7 @@ def _worker(prop_name: str, tier: str, wseed: int, n_examples: int, excluded: Li
             "inconclusive": 0,
             "samples": [],
             "errors": [],
+            "slowest": (0.0, None),
         }
         found: List[dict] = []
         excluded_set = set(excluded)
@@ -141,7 +154,17 @@ def _worker(prop_name: str, tier: str, wseed: int, n_examples: int, excluded: Li
                 cj = None
                 if state["t_fail"] is not None and now - state["t_fail"] > shrink_s:
                     raise _Abort("shrink budget")  # keep the smallest failing case seen so far
-                res = prop.check(case)
+                signal.setitimer(signal.ITIMER_REAL, case_timeout_s)
+                try:
+                    res = prop.check(case)
+                except CaseTimeout:
+                    res = Result()
+                    res.fail("hang|check-did-not-finish", f"the check of one case did not finish within {case_timeout_s} s (endless loop or pathological blow-up in the code under test)")
+                finally:
+                    signal.setitimer(signal.ITIMER_REAL, 0)
+                took = time.time() - now
+                if took > stats["slowest"][0]:
+                    stats["slowest"] = (round(took, 2), case if took > 5 else None)
                 stats["evaluations"] += 1
                 if res.skipped:
                     stats["skipped"][res.skipped] = stats["skipped"].get(res.skipped, 0) + 1
@@ -243,11 +266,22 @@ def _worker(prop_name: str, tier: str, wseed: int, n_examples: int, excluded: Li
 # --------------------------------------------------------------------------------------------------------------------
 
 
-def replay_case(prop, case, times: int = 2):
+def replay_case(prop, case, times: int = 2, timeout_s: float = 60.0):
     """Runs check(case) without Hypothesis; returns the violations of the last run."""
     res = None
-    for _ in range(times):
-        res = prop.check(case)
+    old = signal.signal(signal.SIGALRM, _on_alarm)
+    try:
+        for _ in range(times):
+            signal.setitimer(signal.ITIMER_REAL, timeout_s)
+            try:
+                res = prop.check(case)
+            except CaseTimeout:
+                res = Result()
+                res.fail("hang|check-did-not-finish", f"the check of this case did not finish within {timeout_s} s")
+            finally:
+                signal.setitimer(signal.ITIMER_REAL, 0)
+    finally:
+        signal.signal(signal.SIGALRM, old)
     return res
 
 
@@ -330,6 +364,23 @@ def run_property(prop_id: str, tier: str, workers: Optional[int], examples: Opti
                 else:
                     violations.append({"signature": v.sig, "case": case, "violation": v.to_json(), "source": f"corpus/{prop_id}/{fn}"})
 
+    # 1b) deterministic extra cases of the property module (e.g. the repository's own fixtures)
+    extra_n = 0
+    if hasattr(prop, "extra_cases"):
+        for case in prop.extra_cases(tier):
+            res = replay_case(prop, case, 1)
+            extra_n += 1
+            evaluations += 1
+            if res.nontrivial:
+                nontrivial.add(digest(case).hex())
+            if len(samples) < 1:
+                samples.append(case)
+            for v in res.violations:
+                if v.sig in open_known:
+                    known_reproduced[v.sig] = known_reproduced.get(v.sig, 0) + 1
+                else:
+                    violations.append({"signature": v.sig, "case": case, "violation": v.to_json(), "source": "extra_cases"})
+
     try:
         from . import kc as _kc
 
@@ -368,6 +419,7 @@ def run_property(prop_id: str, tier: str, workers: Optional[int], examples: Opti
     known_hits: Dict[str, int] = {}
     errors: List[str] = []
     seeds = []
+    slowest = (0.0, None)
     for r in results:
         if "stats" not in r:
             continue
@@ -387,6 +439,8 @@ def run_property(prop_id: str, tier: str, workers: Optional[int], examples: Opti
         seeds.append(s["seed"])
         for f in r["found"]:
             violations.append(f)
+        if s.get("slowest") and s["slowest"][0] > slowest[0]:
+            slowest = s["slowest"]
     for sig, n in known_hits.items():
         known_reproduced[sig] = known_reproduced.get(sig, 0) + n
 
@@ -421,6 +475,7 @@ def run_property(prop_id: str, tier: str, workers: Optional[int], examples: Opti
             "rule": rule,
             "samples": samples[:4] if samples else [],
             "corpus_replayed": corpus_n,
+            "deterministic_extra_cases": extra_n,
             "labels": dict(sorted(labels.items())),
             "abstained": abstained,
             "skipped_out_of_domain": skipped,
@@ -429,6 +484,7 @@ def run_property(prop_id: str, tier: str, workers: Optional[int], examples: Opti
             "workers": workers,
             "examples_per_worker": per_worker,
             "worker_seeds": sorted(seeds),
+            "slowest_case_s": slowest[0],
             "exhaustive": False,
         },
         "assumptions": list(getattr(prop, "ASSUMPTIONS", [])),
@@ -452,6 +508,11 @@ def run_property(prop_id: str, tier: str, workers: Optional[int], examples: Opti
         f"distinct_nontrivial={len(nontrivial)} abstained={abstained} violations={len(by_sig)} "
         f"known_reproduced={sum(known_reproduced.values())} wall={wall:.1f}s"
     )
+    if slowest[0] > 5 and slowest[1] is not None:
+        os.makedirs(REPLAY_DIR, exist_ok=True)
+        with open(os.path.join(REPLAY_DIR, f"{prop_id}-slowest.json"), "w") as f:
+            json.dump({"property": prop_id, "signature": "slow-case", "case": slowest[1], "seconds": slowest[0]}, f, indent=1, default=str)
+        print(f"  slowest case took {slowest[0]} s (saved to replays/{prop_id}-slowest.json)")
     if labels:
         top = sorted(labels.items(), key=lambda kv: -kv[1])[:24]
         print("  labels: " + ", ".join(f"{k}={v}" for k, v in top))
